@@ -315,6 +315,7 @@ Definition ev_ok (m n : Z) (l : list Z) : bool :=
   | 100 :: _ => false
   | 666 :: _ => false          (* a thread reached a scheduling point while holding the pool mutex *)
   | 777 :: _ => false          (* deadlock *)
+  | 888 :: _ => false          (* a thread touched the pool after ~thread_pool returned *)
   | _ => true
   end.
 (* every submission that the case declares at top level was made (labels 0..j-1 all present) *)
